@@ -414,6 +414,32 @@ def extra(tier, seed, stats):
                      {"kind": "A", "inp": 0, "cfg": dict(cfg, threads=2)},
                      {"kind": "F", "inp": 0, "cfg": dict(cfg, threads=4), "nfiles": 2, "infmt": "fasta", "outfmts": ["msf"], "rerun": False, "early_write": False, "pre": []}]
             cases_.append({"pool": pool, "units": units, "order": [0, 1, 2] * 6, "scribble": [[3, 256, 7]]})
+    # two array calls in a row whose inputs have the same shape (same number of sequences, same lengths, hence the same
+    # allocation pattern) but different residues in the sequences that are compared first: anything remembered per buffer
+    # address or per length from the first call is wrong for the second
+    for i in range(8 if tier == "quick" else 24):
+        rnd = _r.Random(seed * 53 + i)
+        kind, alpha = (("dna", gen.NUC), ("protein", gen.AA))[(i // 2) % 2]
+        n = rnd.randint(105, 150)
+        L = rnd.choice([60, 100, 150])
+        if i % 2:
+            # every sequence of both inputs has the same length: every buffer of the second call is a candidate for re-use
+            fam1 = gen.expand_family(rnd.randrange(2 ** 32), alpha, n, L, 0.15, 0.0, 0.0, tree=bool(i % 3))
+            fam2 = gen.expand_family(rnd.randrange(2 ** 32), alpha, n, L, 0.25, 0.0, 0.0, tree=bool(i % 3))
+        else:
+            fam1 = gen.expand_family(rnd.randrange(2 ** 32), alpha, n, L, 0.15, 0.0, 0.0, tree=bool(i % 3))
+            fam1 = [x[:L - rnd.randint(0, 12)] for x in fam1]
+            fam1[0] = (fam1[0] + "".join(rnd.choice(alpha) for _ in range(L)))[:L + 7]       # the longest: compared first
+            fam2 = list(fam1)
+            for j in rnd.sample(range(n), 1 + n // 10) + [0]:
+                fam2[j] = gen.mutate(rnd, fam1[j], alpha, 0.5, 0.0, 0.0) if len(fam1[j]) else fam1[j]
+                fam2[j] = (fam2[j] + fam1[j])[:len(fam1[j])]
+        if gen.expected_kind(fam1) != kind or gen.expected_kind(fam2) != kind:
+            continue
+        pool = [{"names": ["a%d" % j for j in range(n)], "seqs": fam1, "kind": kind}, {"names": ["a%d" % j for j in range(n)], "seqs": fam2, "kind": kind}]
+        cfg = {"type": 5, "threads": 1 + i % 3, "gpo": -1.0, "gpe": -1.0, "tgpe": -1.0}
+        units = [{"kind": "A", "inp": 0, "cfg": cfg}, {"kind": "A", "inp": 1, "cfg": cfg}, {"kind": "A", "inp": 0, "cfg": cfg}, {"kind": "A", "inp": 1, "cfg": cfg}]
+        cases_.append({"pool": pool, "units": units, "order": [0, 1, 2, 3], "scribble": []})
     with ThreadPoolExecutor(max_workers=6) as ex:
         res = list(ex.map(check, cases_))
     out = []
